@@ -667,3 +667,11 @@ CHECKS['C18']['gens'] = CHECKS['C18']['gens'] + ['CoordLoop']
 CHECKS['C18']['level_text'] = CHECKS['C18']['level_text'] + (" CHECK LOOP (Props/C18Loop): over the REGENERATED decisions of doCheckNamespaces (ISR-too-short test, aliveCount loop, trimming guard; pinned: one removal per pass, "
     "through removeNamespaceFromNode, only without a removing node and with all ISR members fully ready): C18_trim_keeps_live_quorum — whenever the trimming guard lets a removal through, all ISR members are alive, and after "
     "the removal at least `replica` live members remain (a strict majority); C18_trim_refuses; witness that a non-strict comparison would break it.")
+
+# C16: the batching loop of the stream writer as a model over its pinned statement list (Gen/StreamWriter.lean)
+_p = CHECKS['C16']['props']
+CHECKS['C16']['props'] = (_p if isinstance(_p, list) else [_p]) + ['ZanVerif.Props.C16Writer']
+CHECKS['C16']['gens'] = CHECKS['C16']['gens'] + ['StreamWriter']
+CHECKS['C16']['level_text'] = CHECKS['C16']['level_text'] + (" WRITER (Props/C16Writer): the batching loop of streamWriter.run, statement list and batch-limit test regenerated: C16_writer_batch_conserves — encoded ++ failed ++ still-in-channel "
+    "= what the loop started with, for every queue, counter, buffer size and encoder behaviour (nothing is taken from the channel and dropped); C16_writer_batch_no_loss; C16_writer_batch_bounded (forced flush); witness of the seeded late-limit variant dropping a message. "
+    "Tie besides the pin: protocol streamw runs the real writer goroutine.")
